@@ -18,17 +18,17 @@ Section EquivCap.
 
   Lemma len_equiv v s : runm lib__MiniVec__len_ast [VObj v] s = lift_m (len v) VInt s.
   Proof.
-    unfold runm. evm. cbv [is_default len vec_handle bind ret hdr_block get_block ub lift_m]. crush.
+    unfold runm. evm. cbv [is_default len vec_handle bind ret hdr_block get_block ub lift_m]. sym.
   Qed.
 
   Lemma capacity_equiv v s : runm lib__MiniVec__capacity_ast [VObj v] s = lift_m (capacity v) VInt s.
   Proof.
-    unfold runm. evm. cbv [is_default capacity vec_handle bind ret hdr_block get_block ub lift_m]. crush.
+    unfold runm. evm. cbv [is_default capacity vec_handle bind ret hdr_block get_block ub lift_m]. sym.
   Qed.
 
   Lemma alignment_equiv v s : runm lib__MiniVec__alignment_ast [VObj v] s = lift_m (alignment cfg v) VInt s.
   Proof.
-    unfold runm. evm. cbv [is_default alignment vec_handle bind ret hdr_block get_block ub lift_m]. crush.
+    unfold runm. evm. cbv [is_default alignment vec_handle bind ret hdr_block get_block ub lift_m]. sym.
   Qed.
 
   Lemma reserve_exact_equiv v n s :
@@ -36,7 +36,7 @@ Section EquivCap.
   Proof.
     unfold runm. evm.
     cbv [reserve_exact add_m add_u bind ret lift_m vunit lift_opt panic ub fst snd].
-    crush.
+    sym.
   Qed.
 
   Lemma shrink_to_fit_equiv v s :
@@ -44,7 +44,7 @@ Section EquivCap.
   Proof.
     unfold runm. evm.
     cbv [shrink_to_fit bind ret lift_m vunit lift_opt panic ub fst snd].
-    crush.
+    sym.
   Qed.
 
   Lemma shrink_to_equiv v n s :
@@ -52,6 +52,6 @@ Section EquivCap.
   Proof.
     unfold runm. evm.
     cbv [shrink_to bind ret lift_m vunit lift_opt panic ub fst snd].
-    crush.
+    sym.
   Qed.
 End EquivCap.
